@@ -266,3 +266,104 @@ def co_written(run, fields_pair, rule='R7', scope_cls=None):
                       '%s assigns %s without assigning %s alongside it; the default-ness test of the former no longer covers the latter' % (fn.norm, a.split('::')[-1], b.split('::')[-1]))
     else:
         run.ok(rule, 'co-written', '%s with %s' % (a.split('::')[-1], b.split('::')[-1]), '', 'assigned together in all %d functions that assign either' % n)
+
+
+# ---------------------------------------------------------------------------
+INVALIDATING = {'erase', 'clear', 'pop_front', 'pop_back', 'resize', 'swap', 'assign', 'shrink_to_fit', 'reset'}
+ELEMENT_ACCESS = {'front', 'back', 'begin', 'end', 'find', 'at', 'operator[]', 'rbegin', 'lower_bound', 'upper_bound', 'data'}
+
+
+def dangling_element_refs(run, fns, rule='R15', instance='element-ref-after-erase'):
+    """A local reference / pointer / iterator into a member container must not be used after a call on that
+    container that invalidates it (erase, clear, pop, ...) unless it was re-established in between."""
+    n_refs = 0
+    for fn in fns:
+        if fn.cfg is None:
+            continue
+        # locals bound to elements of member containers
+        bound = {}
+        for n in fn.all_nodes():
+            if n['k'] != 'decl':
+                continue
+            for v in n['vars']:
+                if v.get('did') is None or v.get('init') is None:
+                    continue
+                ty = fn.types[v['t']]
+                if not (ty.rstrip().endswith('&') or ty.rstrip().endswith('*') or 'iterator' in ty):
+                    continue
+                i0 = q.strip_casts(v['init'])
+                if ty.rstrip().endswith('*') and not (is_node(i0) and ((i0['k'] == 'un' and i0['op'] == '&') or (i0['k'] == 'call' and (i0.get('callee') or '').endswith('::data')))):
+                    continue      # a pointer VALUE copied out of the container, not a pointer into it
+                cont = None
+                for x in walk(v['init']):
+                    if x['k'] == 'call' and (x.get('callee') or '').split('::')[-1] in ELEMENT_ACCESS and is_node(x.get('obj')):
+                        f = q.field_name(q.strip_casts(x['obj']))
+                        if f and q.is_this(q.access_root(x['obj'])):
+                            cont = f
+                if cont:
+                    bound[v['did']] = (v['name'], cont, n)
+        if not bound:
+            continue
+        n_refs += len(bound)
+        invalid = []
+        for c in fn.calls():
+            if c['k'] == 'call' and is_node(c.get('obj')) and (c.get('callee') or '').split('::')[-1] in INVALIDATING:
+                f = q.field_name(q.strip_casts(c['obj']))
+                if f and q.is_this(q.access_root(c['obj'])) and 'shared_ptr' not in (c.get('callee') or ''):
+                    invalid.append((f, c))
+        for did, (name, cont, decl) in bound.items():
+            db = fn.cfg.node_block(decl)
+            for f, c in invalid:
+                if f != cont:
+                    continue
+                # an iterator passed to erase itself is the legitimate last use
+                for u in fn.all_nodes():
+                    if u['k'] != 'ref' or u.get('did') != did:
+                        continue
+                    if any(a is u or any(y is u for y in walk(a)) for a in c.get('args', [])):
+                        continue
+                    pr = fn.parent(u)
+                    while pr is not None and pr['k'] == 'cast':
+                        pr = fn.parent(pr)
+                    if pr is not None and ((pr['k'] == 'bin' and pr['op'] == '=' and q.strip_casts(pr['lhs']) is u) or (pr['k'] == 'call' and pr.get('opc') == '=' and pr.get('args') and q.strip_casts(pr['args'][0]) is u)):
+                        continue      # being re-assigned, not read
+                    pu, pc = fn.cfg.node_pos(u), fn.cfg.node_pos(c)
+                    if pu is None or pc is None:
+                        continue
+                    kills = [fn.cfg.node_pos(decl)] + [fn.cfg.node_pos(s_) for s_, _ in q.local_defs(fn, did) if s_ is not decl]
+                    kills = [k for k in kills if k is not None]
+                    after = _reaches_without_kill(fn.cfg, pc, pu, kills)
+                    if after:
+                        run.violation(rule, instance, '%s: %s used after %s.%s' % (fn.norm, name, cont.split('::')[-1], (c.get('callee') or '').split('::')[-1]), fn.loc(u),
+                                      '`%s` refers to an element of %s, and is used here after %s() released that element: the value read comes from freed storage (whatever the allocator left there)'
+                                      % (name, cont.split('::')[-1], (c.get('callee') or '').split('::')[-1]))
+                        break
+                else:
+                    continue
+                break
+            else:
+                run.ok(rule, instance, '%s: %s into %s' % (fn.norm, name, cont.split('::')[-1]), fn.loc(decl), 'never used after an invalidating call on the container')
+    return n_refs
+
+
+def _reaches_without_kill(cfg, src, dst, kills):
+    """Is there a path from just after position src=(block,pos) to dst=(block,pos) that meets no kill position first?"""
+    kill_by_block = {}
+    for b, p in kills:
+        kill_by_block.setdefault(b, []).append(p)
+    seen = set()
+    work = [(src[0], src[1] + 1)]
+    while work:
+        b, start = work.pop()
+        if (b, start > 0) in seen:
+            continue
+        seen.add((b, start > 0))
+        ks = sorted(p for p in kill_by_block.get(b, []) if p >= start)
+        limit = ks[0] if ks else None
+        if b == dst[0] and dst[1] >= start and (limit is None or dst[1] < limit or dst[1] == limit and False):
+            return True
+        if limit is not None:
+            continue
+        for s in cfg.succ[b]:
+            work.append((s, 0))
+    return False
